@@ -34,6 +34,7 @@ pub struct Ctx {
     pub current: Arc<AtomicU64>,
     pub sub: String,
     pub corpus: Option<String>,
+    pub engine: Option<String>,
 }
 
 impl Ctx {
@@ -101,7 +102,16 @@ pub fn install_panic_hook() {
         } else {
             "<non-string panic>".to_string()
         };
-        LAST_PANIC.with(|p| *p.borrow_mut() = Some(format!("{} at {}", msg, loc)));
+        let desc = format!("{} at {}", msg, loc);
+        LAST_PANIC.with(|p| {
+            let mut p = p.borrow_mut();
+            if let Some(first) = p.as_ref() {
+                // a second panic before the first one was collected: unwinding will abort the process
+                eprintln!("NESTED-PANIC first: {} || second: {}", first, desc);
+            } else {
+                *p = Some(desc);
+            }
+        });
     }));
 }
 
